@@ -888,7 +888,9 @@ func (ag *aggrGroup) insert(ctx context.Context, alert *alert.Alert) bool {
 		trace.WithSpanKind(trace.SpanKindInternal),
 	)
 	defer span.End()
-	if err := ag.alerts.Set(alert); err != nil {
+	// Ingestion workers can apply the updates of one alert out of order, so a
+	// late older update must not overwrite a newer one.
+	if err := ag.alerts.SetIfNotOlder(alert); err != nil {
 		if errors.Is(err, store.ErrDestroyed) {
 			return false
 		}
